@@ -45,6 +45,8 @@ def main():
                 print(p, "seed", s, "exit", r.returncode, "%.0fs" % (time.time() - t0), (lines[0][:200] if lines else ""))
     finally:
         subprocess.run(["git", "-C", REPO, "worktree", "remove", "--force", wt], capture_output=True)
+        import hashlib, shutil
+        shutil.rmtree(os.path.join(ROOT, ".build", "ov-" + hashlib.sha256(os.path.join(wt, "verif-overlay.json").encode()).hexdigest()[:10]), ignore_errors=True)
     caught = any(x["exit"] == 1 for x in results)
     json.dump({"caught": caught, "runs": results, "at": time.strftime("%Y-%m-%dT%H:%M:%SZ", time.gmtime())}, open(os.path.join(d, "result.json"), "w"), indent=1)
     print("CAUGHT" if caught else "MISSED")
